@@ -49,7 +49,11 @@ def perturb(v, rng):
     if isinstance(v, (int, float)) and v is not None:
         return round(v * rng.choice([1.5, 0.5, 2.0]) + rng.choice([0.125, 1.0]), 6)
     if isinstance(v, str) and "T" in v and v[:2] in ("19", "20"):
-        return v[:2] + ("%02d" % ((int(v[2:4]) + 1) % 100)) + v[4:]
+        w = v[:2] + ("%02d" % ((int(v[2:4]) + 1) % 100)) + v[4:]
+        # ISO 8601 allows a numeric UTC offset instead of "Z": the launch date is the INSTANT, not the wall-clock digits
+        if w.endswith("Z") and rng.random() < 0.5:
+            w = w[:-1] + rng.choice(["+02:00", "-05:30", "+00:00", "+13:45"])
+        return w
     return v
 
 
